@@ -121,6 +121,18 @@ def _extra():
     for yv in (255, 0, 7):
         add("opt-reload-flags", "unsigned char a, r;", "r = 0; Y = %d; X = 5; a = Y + 1; X = 5; if (X) r = 1;" % yv, {"expect": {"r": 1}}, "ADC between two X = 5, Y=%d" % yv)
         add("opt-reload-flags", "unsigned char a, r;", "r = 0; X = %d; Y = 5; a = X + 1; Y = 5; if (Y) r = 1;" % yv, {"expect": {"r": 1}}, "ADC between two Y = 5, X=%d" % yv)
+    # `return i++;`: the increment happens although the statement's end is never reached; same result inlined and called
+    for kw in ("", "inline "):
+        for v in (5, 255):
+            add("return-with-deferred-effects", "unsigned char i, r, q; %sunsigned char f() { return i++; }" % kw, "i = %d; r = f(); q = i;" % v, {"expect": {"r": v, "q": (v + 1) & 255}}, "%sf: return i++, i=%d" % (kw, v))
+        add("return-with-deferred-effects", "unsigned char i, r, q; %sunsigned char f() { return i++; }" % kw, "q = 0; i = 255; r = f(); if (r) q = 1;", {"expect": {"q": 1, "r": 255, "i": 0}}, "%sf: the caller tests the value returned, not the incremented variable" % kw)
+        add("return-with-deferred-effects", "unsigned char t[4]; unsigned char *p; unsigned char r, q; %sunsigned char f() { return *p; }" % kw, "t[0] = 9; p = t; Y = 3; r = f(); q = Y;", {"expect": {"r": 9, "q": 3}}, "%sf: return *p keeps the caller's Y" % kw)
+    # store(x) overwrites a cell the flags described; an asm statement can change every flag
+    for v in (255, 3):
+        add("flags-after-store-and-asm", "unsigned char x, y, r;", "r = 0; y = 7; x++; store(x); if (x) r = 1;", {"init": {"x": v}, "expect": {"r": 1, "x": 7}}, "x++; store(x); if (x), x=%d" % v)
+    for v in (3, 0):
+        add("flags-after-store-and-asm", "unsigned char x, y, r;", "r = 0; x = y; asm(\"LDX #0\", 2); if (x) r = 1;", {"init": {"y": v}, "expect": {"r": int(v != 0)}}, "x = y; asm(LDX #0); if (x), y=%d" % v)
+        add("flags-after-store-and-asm", "unsigned char x, y, r;", "r = 0; x = y; asm(\"LDX #1\", 2); if (!x) r = 1;", {"init": {"y": v}, "expect": {"r": int(v == 0)}}, "x = y; asm(LDX #1); if (!x), y=%d" % v)
     # loops: for / while / do-while agree
     for n in (0, 1, 5, 200):
         tot = sum(range(n)) & 255
